@@ -1602,7 +1602,7 @@ func min(x, y value) value {
 		c := symBinop(token.LSS, nil, x, y)
 		k, _ := kindOfValue(x)
 		if kindFloat(k) {
-			panic(unsupported{"symbolic float min"})
+			return symFloatMinMax(k, x, y, true)
 		}
 		return mkVal(k, Ite(termOf(c), termOf(x), termOf(y)))
 	}
@@ -1625,7 +1625,7 @@ func max(x, y value) value {
 		c := symBinop(token.GTR, nil, x, y)
 		k, _ := kindOfValue(x)
 		if kindFloat(k) {
-			panic(unsupported{"symbolic float max"})
+			return symFloatMinMax(k, x, y, false)
 		}
 		return mkVal(k, Ite(termOf(c), termOf(x), termOf(y)))
 	}
